@@ -12,7 +12,7 @@ PROPS['C20'] = Prop(
     rule='exhaustive byte strings of length <= 4 over an alphabet, corpus of finding witnesses, by-construction valid ISO 8601 spellings of seeded random instants (years 0..9999, offsets +-14h), single/double mutations of those, non-string JSON values, marshal + round trip under 7 layouts, all on both types packages; counted = distinct encoded inputs with more than 3 integers',
     design_ref='5 C20')
 
-HOOK_COMMITS = ['4bf6967', 'a86af3c']
+HOOK_COMMITS = ['4bf6967', 'a86af3c', 'afb9a3f']
 NOT_APPLICABLE = {}
 MANIFEST_TEXT = {}
 MANIFEST_TEXT['C20'] = dict(
@@ -90,11 +90,13 @@ PROPS['C01'] = m1prop('C01', 'theories/Props/C01.v', ['C01', 'panic', 'hang'],
                                             ('C01-conclusions-reordered', 19, 'gated: while the callback routine is busy a response and then an error are concluded, 12 tries; each reaches its own callback (F5)')))
 PROPS['C02'] = m1prop('C02', 'theories/Props/C02.v', ['C02'],
                       extra=scenario_extra(('C02-outstanding-written-twice', 10, 'gated: the connection drops while the dispatcher is inside ws.Client.Write (the write succeeds); after the reconnection another request is queued: still one outstanding CALL, written once'),
+                                            ('C02-written-twice-after-timeout', 26, 'server: a request times out and the cancel handler sends the next one to the same client, 6 tries; it is written once (F19)'),
                                             ('C02-written-twice-by-reconnect-racing-dispatch', 21, 'gated (RequestQueue.IsEmpty held): the connection drops and comes back while the pump is about to dispatch a request; the request is written once (F16)'),
                                             ('C02-written-twice-after-restart', 11, 'gated: Stop overtakes a ready token, 12 tries; after Start the first request is written exactly once (F31)')))
 PROPS['C07'] = m1prop('C07', 'theories/Props/C07.v', ['C07', 'hang', 'panic'],
                       extra=scenario_extra(('C07-senders-vs-disconnect-deadlock', 6, 'real sockets: 4 goroutines keep sending on a charge point while the central system drops its connection 12 times; every send and the final Stop must return (F30)'),
                                             ('C07-resume-blocks-pump', 9, 'gated: a write fails and the pump sits in the application cancel callback while the connection drops and comes back; Resume must not block the pump, the endpoint keeps working'),
+                                            ('C07-new-session-never-served', 24, 'gated: immediate reconnect of a client whose disconnection the busy pump has not handled yet; its next request is written (F13)'),
                                             ('C07-reply-racing-timeout-stall', 22, 'gated (RequestQueue.Peek held): reply and timeout of one request handled at the same time; the dispatcher goes on with the next requests (F9)'),
                                             ('C07-simultaneous-timeouts-stall', 20, 'the requests of 8 clients time out at the same moment: all 8 are cancelled and the dispatcher still serves a request sent afterwards (F18)'),
                                             ('C07-server-burst-deadlock', 13, '60 concurrent server-side sends (the request channel holds 20) with a 15 ms network write: every SendRequest returns and all 60 requests are written (F3)')))
@@ -107,7 +109,8 @@ PROPS['C11'] = Prop('C11', harness='c11', entries=['c11rt', 'm1c', 'm1c_h', 'm1c
                     trusted=M1_TRUSTED + ['real-time lane c11rt: wall-clock trace of writes and conclusions, judged by the Coq-proved timing monitor of C08'],
                     assumptions=M1_ASSUME, rule='real-time lane: server endpoints of both versions, a request outstanding when the session ends, the same id reconnects, a new request must get its own full timeout (2 runs per version, thorough 10); ' + M1_RULE,
                     design_ref='5 C11', confirm_slow=True, monitor_prefixes=['C11'], spec_entries=['c11rt'], search_n=3000, harness_timeout=1200,
-                    extra=scenario_extra(('C11-timeout-of-one-client-dispatches-for-another', 16, 'client C times out right after client A completed an exchange; the application\'s cancel handler sends a request to A: it goes to A once, nothing is written to C, nothing crashes (F1)'),
+                    extra=scenario_extra(('C11-new-session-held-by-old-timeout', 24, 'gated: a client disconnects with a request outstanding and the same id reconnects before the pump (busy writing to another client) has handled the disconnection; a request to the new session is written promptly (F13)'),
+                                         ('C11-timeout-of-one-client-dispatches-for-another', 16, 'client C times out right after client A completed an exchange; the application\'s cancel handler sends a request to A: it goes to A once, nothing is written to C, nothing crashes (F1)'),
                                          ('C11-stale-pending-after-session-end', 7, 'bare ocppj.Server without an application disconnect handler: a session ends with a request outstanding, the same id reconnects, the reply to the new session\'s first request must be accepted')))
 PROPS['C16'] = m1prop('C16', 'theories/Props/C16.v', ['C16', 'panic'], spec_entries=['m1c_fresh'],
                       extra=scenario_extra(('C16-send-racing-stop', 5, 'real sockets: 4 goroutines send on a charge point while Stop is called, 40 rounds; nothing may crash or block (F10)'),
@@ -146,7 +149,9 @@ PROPS['C08'] = Prop('C08', harness='c08', entries=['c08rt', 'm1c', 'm1c_h', 'm1c
                     trusted=M1_TRUSTED + ['real-time lane: wall-clock measurements (ms) of writes and cancellations taken inside the ws doubles and the callbacks'],
                     assumptions=M1_ASSUME + ['real-time lane: a timeout earlier than 6 ms before the deadline counts as early (measurement tolerance); lateness is only checked as "concluded within the observation window (deadline + >= 60 ms)"'],
                     rule='real-time lane: 5 client + 5 server scenarios x 2 protocol versions on the real timers (timeout 160 ms, random jitter 0-24 ms): plain timeout + next request, reply late in the window, disconnect / reconnect across the deadline, answered-then-idle, staggered deadlines of two clients, session end + reconnect of the same id; the measured timed trace is the input of the Coq monitor. Virtual lane: ' + M1_RULE,
-                    design_ref='5 C08', confirm_slow=True, monitor_prefixes=['C08'], spec_entries=['c08rt'], search_n=1500, harness_timeout=1500)
+                    design_ref='5 C08', confirm_slow=True, monitor_prefixes=['C08'], spec_entries=['c08rt'], search_n=1500, harness_timeout=1500,
+                    extra=scenario_extra(('C08-next-request-cancelled-by-stale-timeout', 23, 'gated: the reply to a request arrives when its timeout has just expired and the pump is busy, 8 tries; the next request gets its own full timeout (F8)', ),
+                                         ('C08-request-after-timeout-loses-its-timeout', 26, 'a request times out and the cancel handler sends the next one to the same client, 6 tries; it is written once and times out on its own (F19)'), quick=2, thorough=12))
 MANIFEST_TEXT['C08'] = dict(
     text='Coq theorems: (a) soundness of the extracted timing monitor: an accepted timed trace has no early timeout (counted from the write, for a client from the later of write and last reconnection), no timeout after a conclusion, at most one conclusion per request; (b) per-state laws of the client timer bookkeeping: dispatch re-arms a full timeout and drops a stale unread expiry, the clock fires only at the deadline, pause parks and resume re-arms; (c) class S0: a timed-out request leaves the queue and the next is written. The monitor is run on measured traces of the real timers (time.Timer / context.WithTimeout) of all four endpoint kinds on every run; expiry is also injected in the virtual-time histories shared with C01.',
     note=M1_NOTE + ' Timer accuracy, the Go runtime and scheduling delays are outside the model; the server dispatcher\'s stale timerC token (F8) needs a race that the lanes do not force.',
@@ -169,7 +174,8 @@ PROPS['C03'] = Prop('C03', harness='c03', entries=['c03'], props_file='theories/
                     assumptions=['network writes of replies succeed (in-process ws double); with a failing write the library makes one further attempt and gives up',
                                  'the failing rule tags of an invalid response are taken from validator.v9 (third-party) and classified by the model with the tag table regenerated from errorFromValidation'],
                     rule='enumerated, not sampled: 4 roles x every feature of the role\'s protocol version in both directions plus an unknown action x 6 handler outcomes x handler sets (all; for valid outcomes and in the thorough tier also none, random subset, one profile missing) on the real endpoints with generated stubs; counted = distinct encoded cases',
-                    design_ref='5 C03', monitor_prefixes=['C03'])
+                    design_ref='5 C03', monitor_prefixes=['C03'],
+                    extra=scenario_extra(('C03-no-reply-when-hook-rewrites-error', 25, 'an invalid-message hook is installed on a bare ocppj.Server / ocppj.Client and substitutes its own error (without id, with a foreign id, or nil): every rejected CALL still gets exactly one CALL_ERROR with its own id'), quick=1, thorough=3))
 MANIFEST_TEXT['C03'] = dict(
     text='Coq theorems on the model of handleIncomingRequest / sendResponse / HandleFailedResponseError / errorFromValidation over the role and tag tables regenerated from the source: exactly one reply for every role table, handler subset, action and handler outcome; the arm that runs is the one of the CALL\'s action and (on the regenerated tables) asserts that feature\'s request type; reply kind / code as listed by the property; NotSupported when no handler, arm or feature. Tied to the code by the full cross product role x feature x outcome x handler set on the real endpoints (replies counted on the ws double, id and code compared, stub method and received payload compared).',
     note='Trusted: Coq kernel + vm_compute, translator, generated stubs, payload generator, harness. Concurrent CALLs from many clients are exercised in the thorough tier of C11/C01 only.',
@@ -205,10 +211,11 @@ PROPS['C06'] = Prop('C06', harness='c06', entries=['c06'], props_file='theories/
                     trusted=[TRANSLATOR_TRUST, 'bytes -> JSON is encoding/json (text that is not JSON, or not an array, is dropped before the modelled logic); the decode + validation verdict of a payload is computed with the library by the harness (C04 / C05 describe it) and given to the model',
                              'generated handler stubs; in-process ws doubles; goroutine-dump quiescence detector'],
                     assumptions=['the endpoint\'s dialect is set (the four protocol constructors set it; FormatErrorType panics by design otherwise)',
-                                 'no invalid-message hook is installed',
+                                 'an invalid-message hook is only covered by the scenario lane (hook substituting its own error), not by the model',
                                  'the crash of the server pump by valid traffic (finding F1) is outside this property\'s input space and outside class S0'],
                     rule='grammar-based malformed stream injected into the four real endpoint kinds, with and without a request outstanding: text that is not JSON, non-arrays, arrays of length 0-7, every element replaced by 18 JSON kinds (null, booleans, 0, 2.5, -0, 1e300, strings, arrays, objects, other type ids), ids of 36/37/300 characters and non-ASCII, unknown / wrong-direction / long actions, type-confused and constraint-violating payloads, replies (well-formed and malformed) for the pending id and for foreign ids, nesting 3000 and 12000 deep, 300 kB strings, out-of-range numbers, random splices; after every frame the genuine reply to the outstanding request and a fresh valid CALL must be processed normally; counted = distinct encoded cases',
-                    design_ref='5 C06', monitor_prefixes=['C06'], harness_timeout=1800)
+                    design_ref='5 C06', monitor_prefixes=['C06'], harness_timeout=1800,
+                    extra=scenario_extra(('C06-rejected-call-without-reply-under-hook', 25, 'an invalid-message hook substitutes its own error: unknown action, constraint violation and wrong JSON type are each answered by exactly one CALL_ERROR with the CALL\'s id, on both roles'), quick=1, thorough=3))
 MANIFEST_TEXT['C06'] = dict(
     text='Coq theorems on a total model of Endpoint.ParseMessage + ocppMessageHandler, for every JSON array whatsoever: at most one effect (CALL_ERROR reply, completion of the outstanding request, or delivery to the request handler); the outstanding request is touched only by a well-formed reply carrying exactly its id; a CALL_ERROR is sent only with a non-empty id extracted from the frame and carries it; foreign replies cause nothing. The model is run against the four real endpoint kinds on a grammar-based malformed stream (about 1800 frames per run incl. raw garbage, deep nesting, huge strings), with a recover / process-isolation watchdog for panics and a quiescence watchdog for hangs, and a valid exchange after every frame.',
     note='Trusted: Coq kernel, translator (action tables), harness; encoding/json and the payload verdict come from the library. Panic-freedom of the Go code itself is observed (every frame of the stream), not proved: the model is total where the Go code guards each access.',
